@@ -15,6 +15,7 @@ RULE = ("Honest pair (matching codes; set/allocate/input code entry; both API st
         "every connection's first command was `bind`, nothing was logged as an error, and the fault-free "
         "stabilisation did not loop through reconnects. Non-trivial = >=1 loss while a command/response was in "
         "flight or while the client had un-echoed outbound messages. Distinct = (features, event-kind trace).")
+RULE += (' Added later: WebSocket CLOSING window on graceful closes; outages of 3-12 consecutive failed reconnection attempts (the simulated ClientService calls the retry policy it was given).')
 ASSUMPTIONS = ["simulated WebSocket layer (whole JSON messages, loss discards both queues)",
                "real wormhole_mailbox_server protocol + sqlite in memory",
                "'eventually' = quiescent within 1500 fair steps after the last fault"]
